@@ -416,6 +416,29 @@ impl<'tcx> Dumper<'tcx> {
                 }
                 None
             }
+            ty::Ref(_, inner, _) if inner.is_str() || matches!(inner.kind(), ty::Slice(e) if matches!(e.kind(), ty::Uint(ty::UintTy::U8))) => {
+                let bytes: Option<Vec<u8>> = match val {
+                    ConstValue::Slice { .. } => val.try_get_slice_bytes_for_diagnostics(tcx).map(|b| b.to_vec()),
+                    ConstValue::Indirect { alloc_id, offset } => {
+                        if let Some(rustc_middle::mir::interpret::GlobalAlloc::Memory(a)) = tcx.try_get_global_alloc(*alloc_id) {
+                            self.follow_fat_ptr(a.inner(), offset.bytes() as usize)
+                        } else {
+                            None
+                        }
+                    }
+                    _ => None,
+                };
+                if bytes.is_none() && std::env::var("MIRDUMP_DEBUG").is_ok() {
+                    eprintln!("const_tree: ref leaf not a readable slice: {:?}", val);
+                }
+                let bytes = bytes?;
+                if bytes.len() > 4096 {
+                    return None;
+                }
+                let v: Vec<String> = bytes.iter().map(|b| b.to_string()).collect();
+                let tid = self.ty(t);
+                Some(obj(&[("bytes", arr(&v)), ("ty", tid.to_string())]))
+            }
             ty::Array(..) | ty::Tuple(..) | ty::Adt(..) => {
                 if let ty::Adt(def, _) = t.kind() {
                     if !(def.is_struct() || def.is_enum()) {
@@ -425,7 +448,12 @@ impl<'tcx> Dumper<'tcx> {
                 let r = std::panic::catch_unwind(std::panic::AssertUnwindSafe(|| tcx.try_destructure_mir_constant_for_user_output(*val, t)));
                 let d = match r {
                     Ok(Some(d)) => d,
-                    _ => return None,
+                    _ => {
+                        if std::env::var("MIRDUMP_DEBUG").is_ok() {
+                            eprintln!("const_tree: destructure failed for {:?}", t);
+                        }
+                        return None;
+                    }
                 };
                 if d.fields.len() > 512 {
                     return None;
@@ -446,7 +474,12 @@ impl<'tcx> Dumper<'tcx> {
                 }
                 Some(obj(&items))
             }
-            _ => None,
+            _ => {
+                if std::env::var("MIRDUMP_DEBUG").is_ok() {
+                    eprintln!("const_tree: unsupported leaf type {:?}", t);
+                }
+                None
+            }
         }
     }
 
